@@ -35,11 +35,64 @@ pub(crate) fn decode(
     reference: &[u8],
     data: &[u8],
 ) -> Result<Vec<Vec<u8>>, Box<dyn std::error::Error + Send + Sync>> {
+    // the run-length decoder trusts its input: make sure the stream is well formed and of sane
+    // size before handing it over
+    validate_rle(data)?;
+
     // decode the RLE encoding first
     let buf = bitfield_rle::decode(data)?;
 
     // decode the delta-encoding
     delta_decode(reference, &buf)
+}
+
+/// The most inputs a legitimate packet can carry: the sender never keeps more than 128 inputs
+/// pending (plus the one that makes it notice).
+const MAX_INPUTS_PER_PACKET: usize = 129;
+
+/// The largest buffer a legitimate packet can decode to: every input with its 2-byte length
+/// prefix and of maximal length.
+const MAX_DECODED_LEN: usize = MAX_INPUTS_PER_PACKET * (2 + u16::MAX as usize);
+
+/// Walks over a run-length encoded stream without decoding it. Rejects streams that are truncated
+/// or malformed (on which the decoder would index out of bounds) and streams that would decode to
+/// more than [`MAX_DECODED_LEN`] bytes (on which it would allocate whatever the stream declares).
+fn validate_rle(data: &[u8]) -> Result<(), Box<dyn std::error::Error + Send + Sync>> {
+    let mut offset = 0;
+    let mut decoded_len = 0usize;
+
+    while offset < data.len() {
+        // read the varint header of the next run
+        let mut header = 0u64;
+        let mut shift = 0u32;
+        loop {
+            let byte = *data.get(offset).ok_or("truncated run-length header")?;
+            offset += 1;
+            if shift > 56 {
+                return Err("run-length header too long".into());
+            }
+            header |= u64::from(byte & 127) << shift;
+            shift += 7;
+            if byte & 128 == 0 {
+                break;
+            }
+        }
+
+        let repeat = header & 1 == 1;
+        let len = usize::try_from(if repeat { header >> 2 } else { header >> 1 })?;
+        decoded_len = decoded_len
+            .checked_add(len)
+            .filter(|&total| total <= MAX_DECODED_LEN)
+            .ok_or("run-length encoded data decodes to too many bytes")?;
+        if !repeat {
+            // the literal bytes of the run follow the header
+            offset = offset
+                .checked_add(len)
+                .filter(|&end| end <= data.len())
+                .ok_or("truncated run-length literal")?;
+        }
+    }
+    Ok(())
 }
 
 fn delta_decode(
@@ -72,6 +125,9 @@ fn delta_decode(
 
         base = decoded.clone();
         output.push(decoded);
+        if output.len() > MAX_INPUTS_PER_PACKET {
+            return Err("more inputs than a packet can carry".into());
+        }
     }
 
     Ok(output)
